@@ -166,6 +166,11 @@ def base_config(spec):
             "name": spec["name"],
             "service": {"sp": svc},
         }
+    if spec.get("str_bools"):
+        # booleans of the service section spelled as the strings "true" / "false" (Config.load_special accepts both)
+        for k_, v_ in list(svc.items()):
+            if isinstance(v_, bool):
+                svc[k_] = "true" if v_ else "false"
     if spec.get("enc_keys"):
         cnf["encryption_keypairs"] = [{"key_file": key_file(k), "cert_file": cert_file(k)}
                                       for k in spec["enc_keys"]]
